@@ -37,8 +37,10 @@ def View (r : ObsSt) : Bool × Bool × List Ev × Bool × Option Nat := (r.seen,
 
 /-- The simulation relation, on the components of a `SubjM.State` (so that it can be used in the middle of a
     broadcast, where the map cell is already cleared but the records are only partly updated).
-    `n` = number of `subscribe` calls so far = number of users = number of observers. -/
-structure RelC (sj : Subj) (id n : Nat) (w : World) (observers : List (Nat × Nat)) (serial : Nat)
+    `n` = number of `subscribe` calls so far = number of users = number of observers;
+    `ov` = the observable the users subscribe to (`sj.observable` for a plain Subject, `a.observable` for an
+    AsyncSubject over `sj`). -/
+structure RelC (sj : Subj) (ov : Obsv) (id n : Nat) (w : World) (observers : List (Nat × Nat)) (serial : Nat)
     (f : Nat → ObsSt) : Prop where
   status : w.status = .ok
   held : w.held = []
@@ -47,10 +49,12 @@ structure RelC (sj : Subj) (id n : Nat) (w : World) (observers : List (Nat × Na
   cellS : w.cells[sj.serial]? = some (.int serial)
   slotA : w.slots[sj.onSub]? = some none
   slotB : w.slots[sj.onUnsub]? = some none
-  obsv : w.obsvs[id]? = some sj.observable
+  obsv : w.obsvs[id]? = some ov
   nUsers : w.users.length = n
   nObs : w.obs.length = n
-  user : ∀ u, u < n → w.users[u]? = some ⟨u, noReact, true, (f u).hook⟩
+  /-- `a` = `Subscription.fn_unsubscribe` still there; it outlives the observer's hook for a subscriber that was
+      handed a terminal at once (AsyncSubject after its end): hence only `hook → a` -/
+  user : ∀ u, u < n → ∃ a, w.users[u]? = some ⟨u, noReact, true, a⟩ ∧ ((f u).hook = true → a = true)
   obs : ∀ u, u < n → w.obs[u]? = some (obsOf sj u (f u))
   seen : ∀ u, u < n → (f u).seen = true
   unseen : ∀ u, n ≤ u → View (f u) = View {}
@@ -59,18 +63,18 @@ structure RelC (sj : Subj) (id n : Nat) (w : World) (observers : List (Nat × Na
   log : ∀ u, logOf w u = (f u).log
   keys : ∀ p ∈ observers, p.1 ≤ serial
 
-def Rel (sj : Subj) (id n : Nat) (w : World) (st : State) : Prop :=
-  RelC sj id n w st.observers st.serial st.obs
+def Rel (sj : Subj) (ov : Obsv) (id n : Nat) (w : World) (st : State) : Prop :=
+  RelC sj ov id n w st.observers st.serial st.obs
 
 theorem View.eq {r r' : ObsSt} (h : View r' = View r) :
     r'.seen = r.seen ∧ r'.alive = r.alive ∧ r'.log = r.log ∧ r'.hook = r.hook ∧ r'.inHook = r.inHook := by
   simpa [View] using h
 
-theorem RelC.congr {sj id n w observers serial f g} (h : RelC sj id n w observers serial f)
-    (hv : ∀ u, View (g u) = View (f u)) : RelC sj id n w observers serial g := by
+theorem RelC.congr {sj ov id n w observers serial f g} (h : RelC sj ov id n w observers serial f)
+    (hv : ∀ u, View (g u) = View (f u)) : RelC sj ov id n w observers serial g := by
   have e := fun u => View.eq (hv u)
   refine { h with user := ?_, obs := ?_, seen := ?_, unseen := ?_, hookIff := ?_, deadNoHook := ?_, log := ?_ }
-  · intro u hu; rw [(e u).2.2.2.1]; exact h.user u hu
+  · intro u hu; obtain ⟨a, h1, h2⟩ := h.user u hu; exact ⟨a, h1, fun x => h2 (by rw [← (e u).2.2.2.1]; exact x)⟩
   · intro u hu; rw [h.obs u hu]; simp only [obsOf, (e u).2.1, (e u).2.2.2.2]
   · intro u hu; rw [(e u).1]; exact h.seen u hu
   · intro u hu; rw [hv u]; exact h.unseen u hu
@@ -78,11 +82,11 @@ theorem RelC.congr {sj id n w observers serial f g} (h : RelC sj id n w observer
   · intro u hu; rw [(e u).2.2.2.1] at hu; rw [(e u).2.1]; exact h.deadNoHook u hu
   · intro u; rw [(e u).2.2.1]; exact h.log u
 
-theorem RelC.obs_none {sj id n w observers serial f} (h : RelC sj id n w observers serial f) (u : Nat)
+theorem RelC.obs_none {sj ov id n w observers serial f} (h : RelC sj ov id n w observers serial f) (u : Nat)
     (hu : n ≤ u) : w.obs[u]? = none := by
   apply List.getElem?_eq_none; rw [h.nObs]; exact hu
 
-theorem RelC.users_none {sj id n w observers serial f} (h : RelC sj id n w observers serial f) (u : Nat)
+theorem RelC.users_none {sj ov id n w observers serial f} (h : RelC sj ov id n w observers serial f) (u : Nat)
     (hu : n ≤ u) : w.users[u]? = none := by
   apply List.getElem?_eq_none; rw [h.nUsers]; exact hu
 
@@ -116,19 +120,21 @@ theorem deliverTo_obs (w : World) (o s : Nat) (ev : Ev) :
   unfold World.deliverTo; split <;> rfl
 
 /-- `observer.next(d)` / `.error(e)` / `.complete()` on one entry of the snapshot = `ObsSt.recv` -/
-theorem deliver1_spec {sj id n w observers serial f} (h : RelC sj id n w observers serial f) (ev : Ev) (o : Nat) :
-    WP (evProg ev o .done) w (fun w' => RelC sj id n w' observers serial (upd f o ((f o).recv ev))) := by
+theorem deliver1_specF {sj ov id n w observers serial f} (h : RelC sj ov id n w observers serial f) (ev : Ev) (o : Nat) :
+    WP (evProg ev o .done) w (fun w' => RelC sj ov id n w' observers serial (upd f o ((f o).recv ev)) ∧
+      w'.cells = w.cells) := by
   rcases Nat.lt_or_ge o n with hlt | hge
   · cases ha : (f o).alive with
     | false =>
-      refine wp_ev_dead (h.obs o hlt) (by simp [obsOf, ha]) (WP.done ?_)
+      refine wp_ev_dead (h.obs o hlt) (by simp [obsOf, ha]) (WP.done ⟨?_, rfl⟩)
       refine h.congr fun u => ?_
       rw [view_upd]; split
       · rename_i e; subst e; simp [View, ObsSt.recv, ha]
       · rfl
     | true =>
+      obtain ⟨a, hua, _⟩ := h.user o hlt
       refine wp_ev_user (s := o) (h.obs o hlt) (by simp [obsOf, ha]) (by simp [obsOf, ha]) (by simp [obsOf, ha])
-        (h.user o hlt) rfl (WP.done ?_)
+        hua rfl (WP.done ⟨?_, by unfold World.deliverTo; split <;> rfl⟩)
       have hobs : ∀ u, u < n → (w.deliverTo o o ev).obs[u]? =
           some (obsOf sj u (upd f o ((f o).recv ev) u)) := by
         intro u hu
@@ -168,9 +174,9 @@ theorem deliver1_spec {sj id n w observers serial f} (h : RelC sj id n w observe
           user := by
             intro u hu
             have : (w.deliverTo o o ev).users = w.users := by unfold World.deliverTo; split <;> rfl
-            rw [this, h.user u hu]
-            exact hfix (fun r => some (User.mk u noReact true (f u).hook) = some (User.mk u noReact true r.hook)) u rfl
-              (fun e => by subst e; rfl)
+            obtain ⟨a', h1, h2⟩ := h.user u hu
+            refine ⟨a', by rw [this]; exact h1, ?_⟩
+            exact hfix (fun r => r.hook = true → a' = true) u h2 (fun e => by subst e; exact h2)
           obs := hobs
           seen := fun u hu => hfix (fun r => r.seen = true) u (h.seen u hu) (fun e => by subst e; exact h.seen u hu)
           unseen := fun u hu => hfix (fun r => View r = View {}) u (h.unseen u hu)
@@ -185,7 +191,7 @@ theorem deliver1_spec {sj id n w observers serial f} (h : RelC sj id n w observe
             · subst e; rw [logOf_deliverTo_same, h.log]; simp [upd, ObsSt.recv, ha]
             · rw [logOf_deliverTo_other _ _ _ _ _ (fun x => e x.symm), h.log]; simp [upd, e]
           keys := h.keys }
-  · refine wp_ev_absent (h.obs_none o hge) (WP.done ?_)
+  · refine wp_ev_absent (h.obs_none o hge) (WP.done ⟨?_, rfl⟩)
     refine h.congr fun u => ?_
     rw [view_upd]; split
     · rename_i e; subst e
@@ -193,19 +199,29 @@ theorem deliver1_spec {sj id n w observers serial f} (h : RelC sj id n w observe
       simp [View, ObsSt.recv, this]
     · rfl
 
-/-- `fetch_observers().into_iter().for_each(|o| o.next(..))` = `SubjM.deliver` -/
-theorem deliver_loop {sj id n observers serial} (ev : Ev) (l : List (Nat × Nat)) :
-    ∀ (f : Nat → ObsSt) (w : World), RelC sj id n w observers serial f →
+theorem deliver1_spec {sj ov id n w observers serial f} (h : RelC sj ov id n w observers serial f) (ev : Ev) (o : Nat) :
+    WP (evProg ev o .done) w (fun w' => RelC sj ov id n w' observers serial (upd f o ((f o).recv ev))) :=
+  (deliver1_specF h ev o).conseq fun _ h' => h'.1
+
+/-- `fetch_observers().into_iter().for_each(|o| o.next(..))` = `SubjM.deliver` (no cell is touched) -/
+theorem deliver_loopF {sj ov id n observers serial} (ev : Ev) (l : List (Nat × Nat)) :
+    ∀ (f : Nat → ObsSt) (w : World), RelC sj ov id n w observers serial f →
       WP (forEach (l.map fun p => Data.int p.2) fun o => evProg ev o.toInt.toNat .done) w
-        (fun w' => RelC sj id n w' observers serial (deliver .plain ev l f)) := by
+        (fun w' => RelC sj ov id n w' observers serial (deliver .plain ev l f) ∧ w'.cells = w.cells) := by
   induction l with
-  | nil => intro f w h; exact WP.done h
+  | nil => intro f w h; exact WP.done ⟨h, rfl⟩
   | cons p rest ih =>
     intro f w h
     simp only [List.map_cons, forEach, toNat_int]
     apply WP.seq
-    refine (deliver1_spec h ev p.2).conseq fun w1 h1 => ?_
-    exact ih _ w1 h1
+    refine (deliver1_specF h ev p.2).conseq fun w1 h1 => ?_
+    exact (ih _ w1 h1.1).conseq fun w2 h2 => ⟨h2.1, h2.2.trans h1.2⟩
+
+theorem deliver_loop {sj ov id n observers serial} (ev : Ev) (l : List (Nat × Nat)) :
+    ∀ (f : Nat → ObsSt) (w : World), RelC sj ov id n w observers serial f →
+      WP (forEach (l.map fun p => Data.int p.2) fun o => evProg ev o.toInt.toNat .done) w
+        (fun w' => RelC sj ov id n w' observers serial (deliver .plain ev l f)) :=
+  fun f w h => (deliver_loopF ev l f w h).conseq fun _ h' => h'.1
 
 /-! ### the calls -/
 
@@ -221,35 +237,42 @@ def evCall (sj : Subj) : Ev → Prog
   | .error e => sj.error e
   | .complete => sj.complete
 
-/-- `Subject::next / error / complete` (subject.rs:37-52) = `SubjM.emit .plain` -/
-theorem emit_spec {sj id n w st} (h : Rel sj id n w st) (ev : Ev) :
-    WP (evCall sj ev) w (fun w' => Rel sj id n w' (emit .plain st ev)) := by
+/-- `Subject::next / error / complete` (subject.rs:37-52) = `SubjM.emit .plain`; only the map cell is written -/
+theorem emit_specF {sj ov id n w st} (h : Rel sj ov id n w st) (ev : Ev) :
+    WP (evCall sj ev) w (fun w' => Rel sj ov id n w' (emit .plain st ev) ∧
+      ∀ i, i ≠ sj.observers → w'.cells[i]? = w.cells[i]?) := by
   have hread : w.cells[sj.observers]?.getD .unit = encMap st.observers := by rw [h.cellO]; rfl
   cases ev with
   | next d =>
     refine wp_cellRead h.held ?_
     rw [hread, amapVals_encMap]
-    exact (deliver_loop (.next d) st.observers st.obs w h).conseq fun w' h' => h'
+    exact (deliver_loopF (.next d) st.observers st.obs w h).conseq fun w' h' => ⟨h'.1, fun i _ => by rw [h'.2]⟩
   | error e =>
     refine wp_cellRead h.held ?_
     refine wp_cellWrite h.held ?_
     rw [hread, amapVals_encMap]
-    have h0 : RelC sj id n { w with cells := w.cells.set sj.observers .lnil } [] st.serial st.obs :=
+    have h0 : RelC sj ov id n { w with cells := w.cells.set sj.observers .lnil } [] st.serial st.obs :=
       { h with
         cellO := set_get_same _ h.cellO
         cellS := by show (w.cells.set _ _)[_]? = _; rw [set_get_other _ h.ne]; exact h.cellS
         keys := by intro p hp; cases hp }
-    exact (deliver_loop (.error e) st.observers st.obs _ h0).conseq fun w' h' => h'
+    exact (deliver_loopF (.error e) st.observers st.obs _ h0).conseq fun w' h' =>
+      ⟨h'.1, fun i hi => by rw [h'.2]; exact set_get_other _ (Ne.symm hi)⟩
   | complete =>
     refine wp_cellRead h.held ?_
     refine wp_cellWrite h.held ?_
     rw [hread, amapVals_encMap]
-    have h0 : RelC sj id n { w with cells := w.cells.set sj.observers .lnil } [] st.serial st.obs :=
+    have h0 : RelC sj ov id n { w with cells := w.cells.set sj.observers .lnil } [] st.serial st.obs :=
       { h with
         cellO := set_get_same _ h.cellO
         cellS := by show (w.cells.set _ _)[_]? = _; rw [set_get_other _ h.ne]; exact h.cellS
         keys := by intro p hp; cases hp }
-    exact (deliver_loop .complete st.observers st.obs _ h0).conseq fun w' h' => h'
+    exact (deliver_loopF .complete st.observers st.obs _ h0).conseq fun w' h' =>
+      ⟨h'.1, fun i hi => by rw [h'.2]; exact set_get_other _ (Ne.symm hi)⟩
+
+theorem emit_spec {sj ov id n w st} (h : Rel sj ov id n w st) (ev : Ev) :
+    WP (evCall sj ev) w (fun w' => Rel sj ov id n w' (emit .plain st ev)) :=
+  (emit_specF h ev).conseq fun _ h' => h'.1
 
 /-- the world after `Subject::observable`'s closure ran for a subscribed observer `s` (subject.rs:66-92) -/
 def subWorld (sj : Subj) (w0 : World) (s serial : Nat) (obsl : List (Nat × Nat)) : World :=
@@ -280,19 +303,16 @@ theorem observable_spec {sj : Subj} {w0 : World} {s serial : Nat} {x : Obs} {obs
   refine wp_lockedSlotCall_none hh hA (WP.done ?_)
   exact hQ
 
-/-- `observable().subscribe(..)` of a fresh test subscriber (observable.rs `inner_subscribe`, subject.rs:61-93)
-    = `SubjM.step .plain _ (.subscribe n)` for the next unused id -/
-theorem subscribe_spec {sj id n w st} (h : Rel sj id n w st) :
-    WP (.userSub id noReact .done) w (fun w' => Rel sj id (n + 1) w' (step .plain st (.subscribe n))) := by
-  have hu : (st.obs n).seen = false := (View.eq (h.unseen n (Nat.le_refl _))).1
-  have hst : step .plain st (.subscribe n) = register st n { seen := true, alive := true, hook := true } := by
-    simp [step, subscribeA, subscribeB, subscribeH, Kind.isReplay, hu]
-  rw [hst]
-  refine wp_userSub h.obsv ?_
-  simp only [h.nObs, h.nUsers]
-  refine observable_spec (x := ⟨some (.user n), some (.user n), some (.user n), none⟩) (serial := st.serial)
-    (obsl := st.observers) h.held (by rw [← h.nObs]; simp) rfl h.ne h.cellS h.cellO h.keys h.slotA ?_
-  refine wp_userReady (WP.done ?_)
+/-- the relation after a fresh user `n` went through `Subject::observable`'s closure and `subscribe` returned -/
+theorem RelC.afterSub {sj ov id n w} {st : State} (h : RelC sj ov id n w st.observers st.serial st.obs) :
+    RelC sj ov id (n + 1)
+      ((subWorld sj { w with
+          obs := w.obs ++ [⟨some (.user n), some (.user n), some (.user n), none⟩]
+          users := w.users ++ [⟨n, noReact, false, true⟩] } n st.serial st.observers).setUser n
+        fun u => { u with ready := true })
+      (register st n { seen := true, alive := true, hook := true }).observers
+      (register st n { seen := true, alive := true, hook := true }).serial
+      (register st n { seen := true, alive := true, hook := true }).obs := by
   have hun := View.eq (h.unseen n (Nat.le_refl _))
   have hfix : ∀ (P : ObsSt → Prop) (u : Nat) (r : ObsSt), (u ≠ n → P (st.obs u)) → (u = n → P r) →
       P (upd st.obs n r u) := by
@@ -317,14 +337,14 @@ theorem subscribe_spec {sj id n w st} (h : Rel sj id n w st) :
       nObs := by simp [World.setUser, subWorld, World.setObs, h.nObs]
       user := by
         intro u hu
-        show ((w.users ++ [_]).modify n _)[u]? = _
+        simp only [World.setUser, subWorld, World.setObs]
         by_cases e : u = n
         · subst e
           rw [modify_get_same (x := ⟨u, noReact, false, true⟩) _ _ (by rw [← h.nUsers]; simp)]
-          simp [register, upd]
-        · rw [modify_get_other _ _ (fun x => e x.symm), List.getElem?_append_left (by rw [h.nUsers]; omega),
-            h.user u (by omega)]
-          simp [register, upd, e]
+          exact ⟨true, rfl, fun _ => rfl⟩
+        · obtain ⟨a', h1, h2⟩ := h.user u (by omega)
+          rw [modify_get_other _ _ (fun x => e x.symm), List.getElem?_append_left (by rw [h.nUsers]; omega)]
+          exact ⟨a', h1, by simpa [register, upd, e] using h2⟩
       obs := by
         intro u hu
         show ((w.obs ++ [_]).modify n _)[u]? = _
@@ -354,12 +374,28 @@ theorem subscribe_spec {sj id n w st} (h : Rel sj id n w st) :
         · have := h.keys p hp; omega
         · simp at hp; subst hp; simp }
 
+/-- `observable().subscribe(..)` of a fresh test subscriber (observable.rs `inner_subscribe`, subject.rs:61-93)
+    = `SubjM.step .plain _ (.subscribe n)` for the next unused id -/
+theorem subscribe_spec {sj id n w st} (h : Rel sj sj.observable id n w st) :
+    WP (.userSub id noReact .done) w (fun w' => Rel sj sj.observable id (n + 1) w' (step .plain st (.subscribe n))) := by
+  have hu : (st.obs n).seen = false := (View.eq (h.unseen n (Nat.le_refl _))).1
+  have hst : step .plain st (.subscribe n) = register st n { seen := true, alive := true, hook := true } := by
+    simp [step, subscribeA, subscribeB, subscribeH, Kind.isReplay, hu]
+  rw [hst]
+  refine wp_userSub h.obsv ?_
+  simp only [h.nObs, h.nUsers]
+  refine observable_spec (x := ⟨some (.user n), some (.user n), some (.user n), none⟩) (serial := st.serial)
+    (obsl := st.observers) h.held (by rw [← h.nObs]; simp) rfl h.ne h.cellS h.cellO h.keys h.slotA ?_
+  refine wp_userReady (WP.done ?_)
+  exact RelC.afterSub h
+
 /-- `Subscription::unsubscribe` of a test subscriber's handle (subscription.rs, observer.rs:53-60,
     subject.rs:74-83) = `SubjM.step .plain _ (.unsubscribe u)`; ids that never subscribed are no-ops on both sides -/
-theorem unsubscribe_spec {sj id n w st} (h : Rel sj id n w st) (u : Nat) :
-    WP (.userUnsub u .done) w (fun w' => Rel sj id n w' (step .plain st (.unsubscribe u))) := by
-  show WP _ w (fun w' => RelC sj id n w' (unsubscribeN .plain st u).1.observers (unsubscribeN .plain st u).1.serial
-    (unsubscribeN .plain st u).1.obs)
+theorem unsubscribe_specF {sj ov id n w st} (h : Rel sj ov id n w st) (u : Nat) :
+    WP (.userUnsub u .done) w (fun w' => Rel sj ov id n w' (step .plain st (.unsubscribe u)) ∧
+      ∀ i, i ≠ sj.observers → w'.cells[i]? = w.cells[i]?) := by
+  show WP _ w (fun w' => RelC sj ov id n w' (unsubscribeN .plain st u).1.observers (unsubscribeN .plain st u).1.serial
+    (unsubscribeN .plain st u).1.obs ∧ ∀ i, i ≠ sj.observers → w'.cells[i]? = w.cells[i]?)
   rw [unsub_observers, unsub_serial]
   rcases Nat.lt_or_ge u n with hlt | hge
   · have hs := h.seen u hlt
@@ -368,12 +404,44 @@ theorem unsubscribe_spec {sj id n w st} (h : Rel sj id n w st) (u : Nat) :
       have hin : (st.obs u).inHook = none := by
         have := h.hookIff u; rw [hk] at this; simpa using this.symm
       have hal := h.deadNoHook u hk
-      refine wp_userUnsub_spent (h.user u hlt) (by simp [hk]) (WP.done ?_)
+      obtain ⟨a, hua, hah⟩ := h.user u hlt
       rw [hin]
-      refine RelC.congr h fun u' => ?_
-      rw [unsub_obs]; split
-      · rename_i e; rw [e.1]; simp [View, hk, hal]
-      · rfl
+      have hview : ∀ u', View ((unsubscribeN .plain st u).1.obs u') = View (st.obs u') := by
+        intro u'
+        rw [unsub_obs]; split
+        · rename_i e; rw [e.1]; simp [View, hk, hal]
+        · rfl
+      cases a with
+      | false =>
+        refine wp_userUnsub_spent hua (by simp) (WP.done ⟨?_, fun _ _ => rfl⟩)
+        exact RelC.congr h hview
+      | true =>
+        -- the handle is still there but the observer ended without a teardown: `unsubscribe` only spends the handle
+        refine wp_userUnsub_armed hua (by simp) ?_
+        refine wp_obsUnsub_none (x := obsOf sj u (st.obs u)) (h.obs u hlt) (by simp [obsOf, hin])
+          (WP.done ⟨?_, fun _ _ => rfl⟩)
+        have hrel : RelC sj ov id n
+            ((w.setUser u fun x => { x with armed := false }).setObs u fun x => { x.cleared with onUnsub := none })
+            st.observers st.serial st.obs :=
+          { h with
+            nUsers := by simp [World.setObs, World.setUser, h.nUsers]
+            nObs := by simp [World.setObs, World.setUser, h.nObs]
+            user := by
+              intro u' hu'
+              have key : ((w.setUser u fun x => { x with armed := false }).setObs u
+                  fun x => { x.cleared with onUnsub := none }).users =
+                  w.users.modify u fun x => { x with armed := false } := rfl
+              rw [key]
+              by_cases e : u' = u
+              · subst e; rw [modify_get_same _ _ hua]; exact ⟨false, rfl, fun x => by rw [hk] at x; cases x⟩
+              · rw [modify_get_other _ _ (fun x => e x.symm)]; exact h.user u' hu'
+            obs := by
+              intro u' hu'
+              show (w.obs.modify u _)[u']? = _
+              by_cases e : u' = u
+              · subst e; rw [modify_get_same _ _ (h.obs u' hu')]; simp [obsOf, Obs.cleared, hal, hin]
+              · rw [modify_get_other _ _ (fun x => e x.symm)]; exact h.obs u' hu' }
+        exact RelC.congr hrel hview
     | true =>
       obtain ⟨s, hin⟩ : ∃ s, (st.obs u).inHook = some s := by
         have := h.hookIff u; rw [hk] at this
@@ -382,7 +450,10 @@ theorem unsubscribe_spec {sj id n w st} (h : Rel sj id n w st) (u : Nat) :
         | some s => exact ⟨s, rfl⟩
       have hre : reaches .plain (st.obs u) = true := by simp [reaches, hs, hk, Kind.isPlain]
       simp only [hin, hre, ↓reduceIte]
-      refine wp_userUnsub_armed (h.user u hlt) (by simp [hk]) ?_
+      obtain ⟨a, hua, hah⟩ := h.user u hlt
+      have ha1 : a = true := hah hk
+      subst ha1
+      refine wp_userUnsub_armed hua (by simp) ?_
       refine wp_obsUnsub_some (f := hookProg sj (s : Int)) (x := obsOf sj u (st.obs u)) ?_ (by simp [obsOf, hin]) ?_
       · exact h.obs u hlt
       unfold hookProg
@@ -390,7 +461,7 @@ theorem unsubscribe_spec {sj id n w st} (h : Rel sj id n w st) (u : Nat) :
       have hread : w.cells[sj.observers]?.getD .unit = encMap st.observers := by rw [h.cellO]; rfl
       simp only [World.setObs, World.setUser, hread, amapRemove_encMap]
       refine wp_cellWrite h.held ?_
-      refine wp_lockedSlotCall_none h.held h.slotB (WP.done (WP.done ?_))
+      refine wp_lockedSlotCall_none h.held h.slotB (WP.done (WP.done ⟨?_, fun i hi => set_get_other _ (Ne.symm hi)⟩))
       let r' : ObsSt := { st.obs u with alive := false, hook := false, inHook := none }
       have hfix : ∀ (P : ObsSt → Prop) (u' : Nat), (u' ≠ u → P (st.obs u')) → (u' = u → P r') →
           P (upd st.obs u r' u') := by
@@ -398,7 +469,7 @@ theorem unsubscribe_spec {sj id n w st} (h : Rel sj id n w st) (u : Nat) :
         by_cases e : u' = u
         · subst e; simpa [upd] using h2 rfl
         · simpa [upd, e] using h1 e
-      have hrel : RelC sj id n
+      have hrel : RelC sj ov id n
           { w with
             obs := w.obs.modify u fun x => { x.cleared with onUnsub := none }
             users := w.users.modify u fun x => { x with armed := false }
@@ -416,10 +487,12 @@ theorem unsubscribe_spec {sj id n w st} (h : Rel sj id n w st) (u : Nat) :
           nObs := by simp [h.nObs]
           user := by
             intro u' hu'
-            show (w.users.modify u _)[u']? = _
+            dsimp only
             by_cases e : u' = u
-            · subst e; rw [modify_get_same _ _ (h.user u' hu')]; simp [upd, r']
-            · rw [modify_get_other _ _ (fun x => e x.symm), h.user u' hu']; simp [upd, e]
+            · subst e; rw [modify_get_same _ _ hua]; exact ⟨false, rfl, by simp [upd, r']⟩
+            · obtain ⟨a', h1, h2⟩ := h.user u' hu'
+              rw [modify_get_other _ _ (fun x => e x.symm)]
+              exact ⟨a', h1, by simpa [upd, e] using h2⟩
           obs := by
             intro u' hu'
             show (w.obs.modify u _)[u']? = _
@@ -444,12 +517,16 @@ theorem unsubscribe_spec {sj id n w st} (h : Rel sj id n w st) (u : Nat) :
       · simp [e, hs, View, r', hk, Kind.isPlain]
       · simp [e]
   · have hun := View.eq (h.unseen u hge)
-    refine wp_userUnsub_none (h.users_none u hge) (WP.done ?_)
+    refine wp_userUnsub_none (h.users_none u hge) (WP.done ⟨?_, fun _ _ => rfl⟩)
     rw [hun.2.2.2.2]
     refine RelC.congr h fun u' => ?_
     rw [unsub_obs]; split
     · rename_i e; rw [hun.1] at e; simp at e
     · rfl
+
+theorem unsubscribe_spec {sj ov id n w st} (h : Rel sj ov id n w st) (u : Nat) :
+    WP (.userUnsub u .done) w (fun w' => Rel sj ov id n w' (step .plain st (.unsubscribe u))) :=
+  (unsubscribe_specF h u).conseq fun _ h' => h'.1
 
 /-! ### call sequences -/
 
@@ -470,8 +547,8 @@ def wfFrom (n : Nat) : List Call → Bool
   | .subscribe o :: cs => o == n && wfFrom (n + 1) cs
   | _ :: cs => wfFrom n cs
 
-theorem call_spec {sj id n w st} (h : Rel sj id n w st) (c : Call) (hc : wfFrom n [c] = true) :
-    WP (callProg sj id c) w (fun w' => Rel sj id (n + subs [c]) w' (step .plain st c)) := by
+theorem call_spec {sj id n w st} (h : Rel sj sj.observable id n w st) (c : Call) (hc : wfFrom n [c] = true) :
+    WP (callProg sj id c) w (fun w' => Rel sj sj.observable id (n + subs [c]) w' (step .plain st c)) := by
   cases c with
   | subscribe o =>
     have : o = n := by simpa [wfFrom] using hc
@@ -489,9 +566,9 @@ theorem wfFrom_cons (n : Nat) (c : Call) (cs : List Call) :
 theorem subs_cons (c : Call) (cs : List Call) : subs (c :: cs) = subs [c] + subs cs := by
   cases c <;> simp [subs, isSubscribe, List.filter] <;> omega
 
-theorem calls_spec {sj id} (cs : List Call) : ∀ (n : Nat) (w : World) (st : State), Rel sj id n w st →
+theorem calls_spec {sj id} (cs : List Call) : ∀ (n : Nat) (w : World) (st : State), Rel sj sj.observable id n w st →
     wfFrom n cs = true →
-    WP (forEach cs (callProg sj id)) w (fun w' => Rel sj id (n + subs cs) w' (runFrom .plain st cs)) := by
+    WP (forEach cs (callProg sj id)) w (fun w' => Rel sj sj.observable id (n + subs cs) w' (runFrom .plain st cs)) := by
   induction cs with
   | nil => intro n w st h _; exact WP.done h
   | cons c rest ih =>
@@ -514,7 +591,7 @@ def prog (cs : List Call) : Prog :=
 def sj0 : Subj := ⟨0, 1, 0, 1⟩
 
 theorem rel_init :
-    Rel sj0 0 0 { cells := [.lnil, .int 0], slots := [none, none], obsvs := [sj0.observable] } (init .plain) :=
+    Rel sj0 sj0.observable 0 0 { cells := [.lnil, .int 0], slots := [none, none], obsvs := [sj0.observable] } (init .plain) :=
   { status := rfl, held := rfl, ne := by decide, cellO := rfl, cellS := rfl, slotA := rfl, slotB := rfl,
     obsv := rfl, nUsers := rfl, nObs := rfl
     user := fun u hu => by omega
@@ -527,7 +604,7 @@ theorem rel_init :
     keys := fun p hp => by cases hp }
 
 theorem prog_spec (cs : List Call) (hwf : wfFrom 0 cs = true) :
-    WP (prog cs) {} (fun w' => Rel sj0 0 (subs cs) w' (SubjM.run .plain cs)) := by
+    WP (prog cs) {} (fun w' => Rel sj0 sj0.observable 0 (subs cs) w' (SubjM.run .plain cs)) := by
   unfold prog subjNew
   refine wp_cellNew (wp_cellNew (wp_slotNew (wp_slotNew (wp_obsvNew ?_))))
   have := calls_spec (sj := sj0) (id := 0) cs 0 _ _ rel_init hwf
@@ -557,7 +634,7 @@ structure Agrees (w : World) (st : State) : Prop where
   count : mapCount w = (registered st).length
   alive : ∀ u, w.isSubOf u = aliveOf st u
 
-theorem Rel.agrees {n w st} (h : Rel sj0 0 n w st) : Agrees w st := by
+theorem Rel.agrees {n w st} (h : Rel sj0 sj0.observable 0 n w st) : Agrees w st := by
   have hc : w.cells[0]?.getD .lnil = encMap st.observers := by
     have := h.cellO; simp only [sj0] at this; rw [this]; rfl
   refine ⟨h.status, h.held, h.log, ?_, ?_, ?_⟩
@@ -565,7 +642,8 @@ theorem Rel.agrees {n w st} (h : Rel sj0 0 n w st) : Agrees w st := by
   · simp [mapCount, hc, amapLen_encMap, registered]
   · intro u
     rcases Nat.lt_or_ge u n with hlt | hge
-    · simp only [World.isSubOf, h.user u hlt, h.obs u hlt, aliveOf]
+    · obtain ⟨a, hua, _⟩ := h.user u hlt
+      simp only [World.isSubOf, hua, h.obs u hlt, aliveOf]
       cases ha : (st.obs u).alive <;> simp [obsOf, Obs.isSub, ha]
     · simp only [World.isSubOf, h.users_none u hge, aliveOf]
       exact (View.eq (h.unseen u hge)).2.1.symm
@@ -598,8 +676,8 @@ theorem userIsSub_agrees {w st} (h : Agrees w st) (u : Nat) (k : Bool → Prog) 
   rw [h.alive u]; exact hk
 
 /-- step-wise form (what the driver does: one `run` per call on the world left by the previous one) -/
-theorem call_run {sj id n w st} (h : Rel sj id n w st) (c : Call) (hc : wfFrom n [c] = true) :
-    ∃ n0, ∀ fuel, n0 ≤ fuel → Rel sj id (n + subs [c]) (run fuel [callProg sj id c] w) (step .plain st c) := by
+theorem call_run {sj id n w st} (h : Rel sj sj.observable id n w st) (c : Call) (hc : wfFrom n [c] = true) :
+    ∃ n0, ∀ fuel, n0 ≤ fuel → Rel sj sj.observable id (n + subs [c]) (run fuel [callProg sj id c] w) (step .plain st c) := by
   obtain ⟨n0, w', hrel, hrun⟩ := WP.run_top (call_spec h c hc)
   exact ⟨n0, fun fuel hf => by rw [hrun fuel hf]; exact hrel⟩
 
@@ -624,7 +702,7 @@ example : regOf (run 400 [prog (demo.take 7)] {}) = [1, 2] ∧ registered (SubjM
   decide +kernel
 /-- the hypothesis of `call_run` / `call_spec` is satisfiable: a related pair with a live and a dead observer -/
 example : ∃ w, Final [.subscribe 0, .subscribe 1, .unsubscribe 0] w ∧
-    Rel sj0 0 2 w (SubjM.run .plain [.subscribe 0, .subscribe 1, .unsubscribe 0]) := by
+    Rel sj0 sj0.observable 0 2 w (SubjM.run .plain [.subscribe 0, .subscribe 1, .unsubscribe 0]) := by
   obtain ⟨n0, w, hrel, hrun⟩ := WP.run_top (prog_spec [.subscribe 0, .subscribe 1, .unsubscribe 0] (by decide))
   exact ⟨w, ⟨n0, hrun⟩, hrel⟩
 
